@@ -26,6 +26,21 @@ type validateCall struct {
 	Sig   string
 }
 
+// storeTrustsIdP: the certificate store object was created by vIDPStore (holds the IdP certificate);
+// stores created by vEmptyStore hold nothing. Other stores: unknown (treated as trusting).
+func storeTrustsIdP(v Value) bool {
+	ifc, _ := v.(*Iface)
+	if ifc == nil || ifc.T == nil {
+		return false
+	}
+	p, _ := ifc.V.(*Ptr)
+	if p == nil || p.Obj == nil || p.Obj.Ghost == nil {
+		return true
+	}
+	t, ok := p.Obj.Ghost["trusts-idp"].(bool)
+	return !ok || t
+}
+
 func (in *Interp) addAttr(p *Ptr, key string, val *smt.Term) {
 	fn := in.etreeMethod(types.NewPointer(in.etreeType("Element")), "CreateAttr")
 	in.callFunction(fn, []Value{p, smt.StrLit(key), val}, nil)
@@ -70,6 +85,10 @@ func init() {
 		case "valid":
 			k := intGhost(in, "validate.valid.calls")
 			in.Ghost["validate.valid.calls"] = k + 1
+			if !storeTrustsIdP(call.Store) {
+				in.event("dsig: certificate store of the context does not hold the IdP certificate")
+				return Tuple{nilPtr, in.opaqueError("dsig-cert-not-in-store")}
+			}
 			if in.Choose(2) == 1 {
 				nm := fmt.Sprintf("%d", k)
 				if name != nil && name.Const {
@@ -113,7 +132,31 @@ func init() {
 	intrinsics["vIDPStore"] = func(in *Interp, fn *ssa.Function, a []Value) Value {
 		st := in.P.Pkgs[dsigPkg].Type("MemoryX509CertificateStore").Type()
 		o := in.newObject(st, zeroValue(st), "idp store")
+		o.Ghost = map[string]interface{}{"trusts-idp": true}
 		return &Iface{T: types.NewPointer(st), V: &Ptr{Obj: o}}
+	}
+	// vEmptyStore(): a certificate store that holds no certificate
+	intrinsics["vEmptyStore"] = func(in *Interp, fn *ssa.Function, a []Value) Value {
+		st := in.P.Pkgs[dsigPkg].Type("MemoryX509CertificateStore").Type()
+		o := in.newObject(st, zeroValue(st), "empty store")
+		o.Ghost = map[string]interface{}{"trusts-idp": false}
+		return &Iface{T: types.NewPointer(st), V: &Ptr{Obj: o}}
+	}
+	// vValidateCtxSince(k, sp): Validate calls number k, k+1, ... used sp's current store and clock
+	intrinsics["vValidateCtxSince"] = func(in *Interp, fn *ssa.Function, a []Value) Value {
+		k := in.concreteInt(termArg(in, a[0]), "vValidateCtxSince k")
+		spv := in.load(a[1]).(*StructV)
+		st := derefType(fn.Signature.Params().At(1).Type())
+		store := spv.F[fieldIndex(st, "IDPCertificateStore")]
+		clock := spv.F[fieldIndex(st, "Clock")]
+		calls, _ := in.Ghost["validate.calls"].([]*validateCall)
+		ok := smt.True
+		for i, c := range calls {
+			if i >= k {
+				ok = smt.And(ok, in.valEq(c.Store, store), in.valEq(c.Clock, clock))
+			}
+		}
+		return ok
 	}
 	// vhTLSCert(): the SP's tls.Certificate (RSA key "sp", symbolic certificate bytes)
 	intrinsics["vhTLSCert"] = func(in *Interp, fn *ssa.Function, a []Value) Value {
